@@ -199,6 +199,7 @@ def run(rep):
                 "object x rule against Peg!Conforms. Non-trivial: accepted inputs.")
     rep.assumptions = ["Peg!WellFormed fragment; the first common/abstract reference of an abstract alternative is not optional"]
     P.judge_universe(rep, PID, "kinds", 1 if quick else 2, maxlen=4 if quick else "")
+    P.judge_universe(rep, PID, "alias", 1)
     rep.exhaustive = True
     n, per = (120, 8) if quick else (1200, 10)
     cases = cases_for(rng, n, per)
